@@ -1145,6 +1145,10 @@ class KafkaClient(object):
         node_ids.sort(reverse=True, key=connected)
 
         for node_id in node_ids:
+            if node_id not in self._brokers:
+                # A metadata refresh removed this broker while an earlier one
+                # was being tried: there is nobody to ask, go on to the next
+                continue
             broker = self._get_brokerclient(node_id)
             try:
                 log.debug("_sbur: sending %s to broker %r", _ReprRequest(request), broker)
